@@ -794,6 +794,17 @@ static void process_downstream_ack(int userid, int down_seq, int down_frag)
 		/* Possibly get new packet from queue */
 		get_from_outpacketq(userid);
 #endif
+	} else if (users[userid].outpacket.fragment > 15) {
+		/* Fragment numbers have only 4 bits: a 17th fragment would go
+		   out as number 0 and look like the start of a packet. The
+		   client cannot reassemble this packet anyway; drop it. */
+		users[userid].outpacket.len = 0;
+		users[userid].outpacket.offset = 0;
+		users[userid].outpacket.fragment--;	/* as for a finished packet */
+
+#ifdef OUTPACKETQ_LEN
+		get_from_outpacketq(userid);
+#endif
 	}
 }
 
